@@ -266,13 +266,22 @@ pub fn reference(sc: &HScenario, recorded: &[Tr], facts: &RunFacts) -> (Vec<Tr>,
     }
     let order: Vec<Trig> = recorded
         .iter()
-        .filter_map(|t| match t {
+        .enumerate()
+        .filter_map(|(idx, t)| match t {
             Tr::Top { id } => Some(Trig::Id(*id)),
             Tr::Enter { h: H::Item(i, Ev::OnEvent), args: Args::Event { new } } if *new >= DIRECT_MIN => Some(Trig::Direct(*i, 0, *new)),
             Tr::Enter { h: H::Item(i, Ev::OnUpdate), args: Args::Update { key, new, .. } } if *new >= DIRECT_MIN => Some(Trig::Direct(*i, *key, *new)),
+            // A removal that no program asked for (the entry before it is not the program's remove): one entry
+            // removed by a `@drop` / `@take` command sent straight to the lane.
+            Tr::Enter { h: H::Item(i, Ev::OnRemove), args: Args::Remove { key, .. } } => {
+                let by_program = idx > 0
+                    && matches!(&recorded[idx - 1], Tr::Op(OpRec::Remove { item, key: k }) | Tr::Op(OpRec::Transform { item, key: k, value: None }) if item == i && k == key);
+                if by_program { None } else { Some(Trig::ExtRemove(*i, *key)) }
+            }
             _ => None,
         })
         .collect();
+    let any_direct_drop = sc.peers.iter().any(|p| p.ops.iter().any(|op| matches!(op, POp::DirectDrop { .. })));
     let mut stopped = false;
     let mut seen_ids: BTreeMap<i32, u32> = BTreeMap::new();
     let mut first_swallowed: Option<usize> = None;
@@ -290,6 +299,34 @@ pub fn reference(sc: &HScenario, recorded: &[Tr], facts: &RunFacts) -> (Vec<Tr>,
             r.depth = 0;
             let id = match trig {
                 Trig::Id(id) => id,
+                Trig::ExtRemove(item, key) => {
+                    if !any_direct_drop {
+                        viol.push(Violation::new("C06", "C06.once", "spurious:on_remove", format!("the on_remove handler of item {item} ran for key {key} although nothing removed it")));
+                        break;
+                    }
+                    let m = &mut r.maps[item as usize - N_VALUES];
+                    let Some(prev) = m.remove(&key) else {
+                        viol.push(Violation::new("C06", "C06.once", "spurious:on_remove", format!("the on_remove handler of item {item} ran for key {key}, which the map does not hold")));
+                        break;
+                    };
+                    let map = m.clone();
+                    match r.run_handler(H::Item(item, Ev::OnRemove), Args::Remove { map, key, prev }) {
+                        Ok(()) => {}
+                        Err(Abort::Stop) => {
+                            stopped = true;
+                            break;
+                        }
+                        Err(Abort::Fail) => {
+                            let at = r.out.len() - 1;
+                            if recorded.len() == at + 1 && facts.agent_ok == Some(false) {
+                                fatal = true;
+                                break;
+                            }
+                            r.st.fails_swallowed += 1;
+                        }
+                    }
+                    continue;
+                }
                 Trig::Direct(item, key, value) => {
                     let sent = directs.iter().position(|d| if is_map(item) { *d == (item, key, value) } else { d.0 == item && d.2 == value });
                     let Some(pos) = sent else {
@@ -469,6 +506,8 @@ enum Trig {
     Id(i32),
     /// (item, key, value) of a command sent straight to a lane.
     Direct(i32, i32, i32),
+    /// (item, key): one entry removed by a `@drop` / `@take` command sent straight to a map lane.
+    ExtRemove(i32, i32),
 }
 
 #[derive(Debug, Clone, Copy, PartialEq, Eq)]
@@ -702,6 +741,24 @@ pub fn check_structure(recorded: &[Tr], facts: &RunFacts) -> Vec<Violation> {
             Tr::Enter { h: H::Item(item, Ev::OnUpdate), args: Args::Update { key, new, .. } } if new >= DIRECT_MIN => {
                 after_abort = false;
                 match c.apply(OpRec::Update { item, key, value: new }) {
+                    Flow::Done => {}
+                    Flow::Stopped => stopping = true,
+                    Flow::Abort => {
+                        after_abort = true;
+                        fatal_abort = false;
+                    }
+                    Flow::End => incomplete = true,
+                    Flow::Bad => return c.viol,
+                }
+            }
+            // One entry removed by a `@drop` / `@take` command sent straight to a map lane.
+            Tr::Enter { h: H::Item(item, Ev::OnRemove), args: Args::Remove { key, .. } } => {
+                after_abort = false;
+                if !is_map(item) || !c.maps[item as usize - N_VALUES].contains_key(&key) {
+                    c.bad("C06.once", "spurious:on_remove", format!("on_remove of item {item} ran for key {key}, which the map does not hold"));
+                    return c.viol;
+                }
+                match c.apply(OpRec::Remove { item, key }) {
                     Flow::Done => {}
                     Flow::Stopped => stopping = true,
                     Flow::Abort => {
